@@ -14,7 +14,7 @@ CHECKS = {
 
 CHECKS["C02"] = dict(
    technique="bounded-exhaustive enumeration of clause trees x frames x index shapes; row-wise reference evaluator",
-   text="Every leaf of a ~600-leaf alphabet (all comparators x argument kinds x Inverse for all five column types) alone and in wrappers on 4 frames x 7 physical index shapes, every ordered pair of leaves under And/Or/Or(Not), and every And/Or/Not tree up to 3 (quick) / 4 (thorough) leaf slots with every assignment of core leaves, each executed by the real Filter and compared with a row-wise evaluator of the statement (kept rows, order, all cells).",
+   text="Every leaf of a ~600-leaf alphabet (all comparators x argument kinds x Inverse for all five column types) alone and in wrappers on 5 frames x 7 physical index shapes, every ordered pair of leaves under And/Or/Or(Not), and every And/Or/Not tree up to 3 (quick) / 4 (thorough) leaf slots with every assignment of core leaves, each executed by the real Filter and compared with a row-wise evaluator of the statement (kept rows, order, all cells).",
    note="Trusted: the reference evaluator (model/clause.go). Cell values are limited to one designed 5-row frame and three degenerate frames; enum columns are declared.",
    design="5/C02")
 
@@ -31,7 +31,7 @@ CHECKS["C05"] = dict(
 
 CHECKS["C01"] = dict(
    technique="stateless depth-first search over operation histories on live objects (explicit-state exploration, no state merging); differential invariant re-checked on every member after every step",
-   text="Every history of up to 3 (quick) / 4 (thorough) steps over 37 operations, each step applied to any member of the growing family (frames, groupers, group frames, typed views), from 4 initial frames including one built on caller-owned slices. After every step every member's full observation (Len, names, types, ColumnTypeMap, every cell through typed views, Err, Grouper.QFrames, View.ItemAt) and every argument object is compared with its observation at creation.",
+   text="Every history of up to 3 (quick) / 4 (thorough) steps over 40 operations, each step applied to any member of the growing family (frames, groupers, group frames, typed views), from 4 initial frames including one built on caller-owned slices. After every step every member's full observation (Len, names, types, ColumnTypeMap, every cell through typed views, Err, Grouper.QFrames, View.ItemAt) and every argument object is compared with its observation at creation.",
    note="Differential oracle, no model. Sound reuse of parent objects by children; a failure is replayed from scratch (or, if it only reproduces with sibling steps, with the complete search history) before it is reported.",
    design="5/C01")
 
@@ -55,7 +55,7 @@ CHECKS["C08"] = dict(
 
 CHECKS["C09"] = dict(
    technique="explicit-state exploration of the reachable frame family (history DFS over the operation alphabet) with cross-observer and Equals oracles evaluated on every reached frame and every ordered pair",
-   text="Every non-error frame reachable within 3 steps of the 37-operation alphabet from 4 initial frames (so physical and logical row order differ arbitrarily): Len, names, types, view Len/Slice/ItemAt, ToCSV, ToJSON and String output are parsed and compared cell by cell with the typed views; Equals is compared with the statement's cell-wise equality (and for symmetry) on the New-rebuilt twin, four single-mutation twins and every ordered pair of frames within depth 1 (quick) / 2 (thorough); congruence (Equal twins yield Equal results) under every frame operation.",
+   text="Every non-error frame reachable within 3 steps of the 40-operation alphabet from 4 initial frames (so physical and logical row order differ arbitrarily): Len, names, types, view Len/Slice/ItemAt, ToCSV, ToJSON and String output are parsed and compared cell by cell with the typed views; Equals is compared with the statement's cell-wise equality (and for symmetry) on the New-rebuilt twin, four single-mutation twins and every ordered pair of frames within depth 1 (quick) / 2 (thorough); congruence (Equal twins yield Equal results) under every frame operation.",
    note="Trusted: reference CSV parser, encoding/json token stream, fixed-width parse of String(). Views' ItemAt is the reference observation.",
    design="5/C09")
 
